@@ -107,7 +107,7 @@ PROPS['C17'] = dict(
 )
 
 PROPS['C01'] = dict(
-    families=[dict(name='c01-nq', quick=3000, thorough=150000)],
+    families=[dict(name='c01-nq', quick=3000, thorough=150000), dict(name='c01-rdfjson', quick=2500, thorough=100000)],
     slice=60,
     rule='datasets of 0-6 quads over RFC 3987-generated IRIs (incl. non-ASCII, pct-encoded hosts, upper-case schemes), literals assembled from 32 lexical fragments '
          '(controls, quote, backslash, CR LF TAB BS FF, DEL, U+0080, Latin-1, surrogate-adjacent, astral, text that looks like syntax), 9 language tags with 1-5 subtags, 12 datatypes, '
@@ -148,4 +148,42 @@ PROPS['C06'] = dict(
     explanation='well-formedness theorem over all inputs for the N-Triples/N-Quads decoder model; classification oracle on every statement of every decoder',
     level_text='Proof for N-Triples/N-Quads (every statement of every input, also before an error, is well-formed and absolute: C06_nq_wf); exploration by the classification oracle for the other nine decoders.',
     level_note='Fixes made while building this check: empty language tags (N-Triples, N-Quads, Turtle, TriG, RDF/JSON, RDF/XML, JSON-LD), rdf:langString without tag, empty RDF/JSON datatype, Turtle/TriG collection subjects (nil subject).',
+)
+
+PROPS['C15'] = dict(
+    families=[dict(name='c15-stream', quick=700, thorough=30000)],
+    slice=40,
+    rule='every decoder in turn (half of the budget on N-Triples, N-Quads, Turtle, TriG) on generated N-Triples/N-Quads documents decorated with comments, CRLF, tabs and multi-byte characters, '
+         'W3C suite documents and the hand-written corpus: whole input vs. five chunkings (1, 2, 3+1, random, 4095/1/4096/2 bytes per Read; io.EOF together with or after the last bytes), decoded twice; '
+         'for the streaming formats every cut point (sampled beyond 400 bytes) with a clean and with a failing reader: verdict, statements before the error a prefix of the document\'s (last may differ), '
+         'clean end only where appending a statement yields exactly one more; whole-document formats: a failing reader must surface; '
+         'model-backed: every cut of short N-Triples/N-Quads documents x both reader endings through the decoder model, and the rune buffer against the bufio.ReadRune model on intact and UTF-8-damaged bytes',
+    trusted_base=['model/RuneBuf.v models bufio.Reader.ReadRune / utf8.FullRune / utf8.DecodeRune of the Go standard library as used by cursorioutil.RuneBuffer (third party); tied to them by the K/C15/runes correspondence',
+                  'model/NQ.v (N-Triples/N-Quads decoder)'],
+    assumptions=['Turtle, TriG and the whole-document decoders have no model: chunking independence, cut points and error surfacing are explored for them, not proved',
+                 'the theorem that statements before a cut are a prefix of the complete document\'s statements is not proved yet for the N-Quads model (checked by the cut oracle and the model correspondence on every cut)'],
+    explanation='theorems: the runes (hence statements and verdict of the N-Triples/N-Quads model) are the same for every partition of the bytes into Read calls; a failing reader never yields a clean end; '
+                'model = implementation on every cut of generated documents under both reader endings; oracles over all eleven decoders',
+    level_text='Proof (partial): chunking independence for all partitions of all byte strings through the rune-buffer model and the N-Triples/N-Quads decoder model (C15_runes_ignore_chunking, C15_nq_ignores_chunking), '
+               'reader failures always reported (C15_nq_io_error_reported); truncation prefix property and the other decoders by exploration of every cut point.',
+    level_note='Fixes made while building this check: Turtle/TriG numeric literals without digits (a cut after a sign ended cleanly), Turtle/TriG comment at end of input hiding a pending production, N-Triples/N-Quads truncated subject.',
+)
+
+PROPS['C16'] = dict(
+    families=[dict(name='c16-offsets', quick=5000, thorough=200000)],
+    slice=40,
+    rule='every decoder with offset capture (all eleven) on generated N-Triples/N-Quads documents, W3C suite documents and the corpus, 1/4 of them cut or mutated (not for the HTML family), with and without a random initial offset and base: '
+         'same statements with capture on and off; every range inside the document, start <= end, byte/line/column consistent with the text (line/column for text whose code points are grapheme clusters of their own); '
+         'N-Triples, N-Quads, Turtle, TriG: the slice of every subject/predicate/object/graph range re-decoded in the document\'s prefix/base context gives the same IRI / literal lexical form / blank node kind '
+         '(terms generated by collection and blank-node-property-list sugar: the range is the generating punctuation); positions attached to syntax errors inside the document; '
+         'model-backed: statements, verdict and all ranges of N-Triples/N-Quads documents against the decoder model; pinned minimal documents of every known and repaired finding run first',
+    trusted_base=['model/NQ.v: commit trace and cursorio.TextWriter position arithmetic (LF, CR LF, lone CR; one column per code point)',
+                  'the re-lexing oracle of the harness (builds a one-statement document around the slice)'],
+    assumptions=['line/column bookkeeping follows grapheme clusters (third-party uax29 segmentation): the model and the line/column oracle cover text in which every code point is its own cluster',
+                 'for decoders other than N-Triples/N-Quads the property is explored, not proved'],
+    explanation='theorems over all inputs, endings and initial offsets for the N-Triples/N-Quads decoder model: committed runes = consumed input in order, every range within [initial, initial + document length] with start <= end, exact byte arithmetic; model = implementation including all ranges; oracles over all decoders',
+    level_text='Proof (partial) for N-Triples/N-Quads: commit discipline (C16_nq_commit_discipline), every range inside the shifted document with start not after end (C16_nq_ranges_inside), exact byte advance (C16_bytes_exact); '
+               'token-of-the-term, line/column agreement and the other decoders by the re-lexing and position oracles (exploration).',
+    level_note='Fixes made while building this check: N-Quads "." after a graph name not committed, Turtle/TriG empty string literal committing the next rune twice, Turtle/TriG blank node ranges without "_:", RDF/XML zero ranges (reification, attributes without metadata, attribute errors), N-Triples/N-Quads error offsets counted twice. '
+               'Known findings (third-party inspecthtml-go / cursorio): F35b, F36b, F40, F49, F50, F51.',
 )
